@@ -26,13 +26,16 @@ func (s *vSink) Write(p []byte) (int, error) {
 	i := s.n
 	s.n++
 	if i == s.failAt || (s.sticky && s.failed) {
+		first := !s.failed
 		s.failed = true
-		k := s.shortN
-		if k > len(p) {
-			k = len(p)
+		if !first {
+			return 0, vErrSink // a destination that has stopped accepting bytes accepts none later
 		}
-		if k < 0 {
-			k = 0
+		// the accepted count is made concrete by a counting loop (one path per value) so that the sink's
+		// length stays a concrete number under the symbolic engine
+		k := 0
+		for k < s.shortN && k < len(p) {
+			k++
 		}
 		s.b = append(s.b, p[:k]...)
 		return k, vErrSink
@@ -54,6 +57,7 @@ type vSource struct {
 	shortN  int
 	maxRead int  // every read returns at most maxRead bytes (0: unlimited)
 	eofWith bool // deliver final bytes together with io.EOF
+	errWith bool // deliver the last bytes before errAt together with the error (else on the next call)
 	seekErr int  // index of the Seek call that fails (-1: never)
 	seeks   int
 }
@@ -65,32 +69,37 @@ func vNewSource(b []byte) *vSource {
 func (s *vSource) Read(p []byte) (int, error) {
 	call := s.calls
 	s.calls++
-	if s.errAt >= 0 && s.pos >= s.errAt {
+	// every comparison against a (possibly symbolic) fault position is decided by forking (vFork), so that
+	// stream positions and read counts stay concrete numbers on every path
+	if s.errAt >= 0 && vFork(s.pos >= s.errAt) {
 		return 0, vErrSource
 	}
-	if s.pos >= s.limit {
+	if vFork(s.pos >= s.limit) {
 		return 0, io.EOF
 	}
 	if len(p) == 0 {
 		return 0, nil
 	}
 	end := s.limit
-	if s.errAt >= 0 && s.errAt < end {
+	if s.errAt >= 0 && vFork(s.errAt < end) {
 		end = s.errAt
 	}
 	n := int64(len(p))
-	if n > end-s.pos {
-		n = end - s.pos
+	if vFork(n > end-s.pos) {
+		n = int64(vConcretize(int(end-s.pos), len(p)))
 	}
-	if call == s.shortAt && int64(s.shortN) < n {
-		n = int64(s.shortN)
+	if vFork(call == s.shortAt) && vFork(int64(s.shortN) < n) {
+		n = int64(vConcretize(s.shortN, len(p)))
 	}
 	if s.maxRead > 0 && int64(s.maxRead) < n {
 		n = int64(s.maxRead)
 	}
 	copy(p[:n], s.b[s.pos:s.pos+n])
 	s.pos += n
-	if s.eofWith && s.pos >= s.limit && (s.errAt < 0 || s.errAt >= s.limit) {
+	if s.errWith && s.errAt >= 0 && vFork(s.pos >= s.errAt) {
+		return int(n), vErrSource
+	}
+	if s.eofWith && vFork(s.pos >= s.limit) && (s.errAt < 0 || vFork(s.errAt >= s.limit)) {
 		return int(n), io.EOF
 	}
 	return int(n), nil
